@@ -554,12 +554,22 @@ def _task_live(task):
     for bi, (before, after) in enumerate(
             [(b, a) for b in BUSY for a in (0, 3)] +
             [(0, a) for a in BUSY[3:]]):
+        linked = None
         try:
             rotate_cookie(b'busy5ecret', before, after)
             # the keyring directory must not be readable or writable by
             # others; search permission for them is allowed (what libdbus
             # checks: mode & 066)
             os.chmod(scratch_keyring(), modes[bi % 4])
+            # every fifth time the keyring directory is a symbolic link to
+            # a properly protected directory elsewhere (a home directory
+            # layout libdbus accepts: it follows the link)
+            linked = None
+            if bi % 5 == 4:
+                real = scratch_keyring()
+                linked = real + '-real'
+                os.rename(real, linked)
+                os.symlink(linked, real)
             for unix in (False, True):
                 done, tr, viol, n = run_handshake(
                     (b'DBUS_COOKIE_SHA1',), b'AGREE_UNIX_FD', False, unix)
@@ -570,7 +580,7 @@ def _task_live(task):
                 res.count('states')
                 rep = {'part': 'live-busy', 'unix': unix,
                        'before': before, 'after': after,
-                       'mode': modes[bi % 4]}
+                       'mode': modes[bi % 4], 'linked': linked is not None}
                 for sig, what in viol:
                     res.violation(sig + '/busy-keyring', what, rep,
                                   size=before + after)
@@ -585,6 +595,9 @@ def _task_live(task):
                         % (modes[bi % 4], before, after, tr[-5:]), rep,
                         size=before + after)
         finally:
+            if linked is not None:
+                os.unlink(scratch_keyring())
+                os.rename(linked, scratch_keyring())
             os.chmod(scratch_keyring(), 0o700)
             rotate_cookie(COOKIE)
     # the application reconfigures the mechanism list while a handshake is in
@@ -809,13 +822,23 @@ def replay(data):
         return [('%s/%s' % (PROP, t), w) for t, w in
                 run_reconfigured(data['edit'], data['unix'])]
     if data.get('part') == 'live-busy':
+        linked = None
         try:
             rotate_cookie(b'busy5ecret', data['before'], data['after'])
             os.chmod(scratch_keyring(), data.get('mode', 0o700))
+            linked = None
+            if data.get('linked'):
+                real = scratch_keyring()
+                linked = real + '-real'
+                os.rename(real, linked)
+                os.symlink(linked, real)
             done, tr, viol, _ = run_handshake(
                 (b'DBUS_COOKIE_SHA1',), b'AGREE_UNIX_FD', False,
                 data['unix'])
         finally:
+            if linked is not None:
+                os.unlink(scratch_keyring())
+                os.rename(linked, scratch_keyring())
             os.chmod(scratch_keyring(), 0o700)
             rotate_cookie(COOKIE)
         out = list(viol)
